@@ -12,6 +12,8 @@ macro_rules! lerp_h { ($name:ident, $T:ty) => {
     }
 }}
 
+#[inline(always)] fn qeq14(a: Quaternion<R>, b: Quaternion<R>) -> bool { (a.s == b.s) & (a.v.x == b.v.x) & (a.v.y == b.v.y) & (a.v.z == b.v.z) }
+
 harnesses! { reg;
 fn c14_lerp_v1(a: Vector1<R>, b: Vector1<R>, t: R) { vassert_eq("lerp = a + (b-a)t", a.lerp(b, t), a + (b - a) * t); vassert_eq("lerp(0) = a", a.lerp(b, R(0.0)), a); vassert_eq("lerp(1) = b", a.lerp(b, R(1.0)), b); vcover("end"); }
 fn c14_lerp_v2(a: Vector2<R>, b: Vector2<R>, t: R) { vassert_eq("lerp = a + (b-a)t", a.lerp(b, t), a + (b - a) * t); vassert_eq("lerp(0) = a", a.lerp(b, R(0.0)), a); vassert_eq("lerp(1) = b", a.lerp(b, R(1.0)), b); vcover("end"); }
@@ -73,6 +75,7 @@ fn c14_nlerp(a: Quaternion<R>, b: Quaternion<R>, t: R) {
     vassert_eq("r = (a(1-t) + b't) k", r, r0 * k);
     let (al, be) = ((R(1.0) - t) * k, t * k);
     vassert("coefficients >= 0", (al >= R(0.0)) & (be >= R(0.0)));
+    c14_lemma_scale4(r0.s, r0.v.x, r0.v.y, r0.v.z, k);
     vlemma_eq("|r|^2 = |r0|^2 k^2", qnorm2(r), m2 * k * k);
     vassert_eq("|r| = 1", qnorm2(r), R(1.0));
     c14_lemma_expand(t, k, d, m2, al, be);
@@ -100,11 +103,29 @@ fn c14_lemma_slerp_core(ss: R, d: R, s: R, c: R, s1: R) {
     vassert_eq("r0.b' = S cos(theta - t theta)", s1 * d + s, ss * (d * c + ss * s));
     vcover("end");
 }
+fn c14_lemma_scale4(s: R, x: R, y: R, z: R, k: R) {
+    vassert_eq("|v k|^2 = |v|^2 k^2", (s * k) * (s * k) + (x * k) * (x * k) + (y * k) * (y * k) + (z * k) * (z * k), (s * s + x * x + y * y + z * z) * k * k);
+    vcover("end");
+}
 fn c14_lemma_slerp_div(n: R, ss: R, x: R, c: R) {
     // n = |r0| with n^2 = S^2, S > 0, n >= 0  =>  n = S and x / n = c when x = S c
     vassume(n >= R(0.0)); vassume_eq(n * n, ss * ss); vassume(ss > R(0.0)); vassume_eq(x, ss * c);
     vassert_eq("n = S", n, ss);
     vassert_eq("x * (1/n) = c", x * (R(1.0) / n), c);
+    vcover("end");
+}
+fn c14_lemma_sin_pos(ss: R, d: R) {
+    vassume(ss >= R(0.0)); vassume_eq(ss * ss, R(1.0) - d * d); vassume(d >= R(0.0)); vassume(d < R(1.0));
+    vassert("S > 0", ss > R(0.0));
+    vcover("end");
+}
+fn c14_lemma_bilinear(a: Quaternion<R>, b: Quaternion<R>, d: R, s1: R, s2: R) {
+    // for unit a, b with a.b = d:  |a s1 + b s2|^2 = s1^2 + s2^2 + 2 s1 s2 d, and the two projections
+    vassume_eq(qnorm2(a), R(1.0)); vassume_eq(qnorm2(b), R(1.0)); vassume_eq(qdot(a, b), d);
+    let r0 = a * s1 + b * s2;
+    vassert_eq("|r0|^2 by bilinearity", qnorm2(r0), s1 * s1 + s2 * s2 + R(2.0) * s1 * s2 * d);
+    vassert_eq("r0.a by bilinearity", qdot(r0, a), s1 + s2 * d);
+    vassert_eq("r0.b' by bilinearity", qdot(r0, b), s1 * d + s2);
     vcover("end");
 }
 fn c14_slerp(a: Quaternion<R>, b: Quaternion<R>, t: R) {
@@ -113,32 +134,50 @@ fn c14_slerp(a: Quaternion<R>, b: Quaternion<R>, t: R) {
     let mut bb = b; let mut d = a.dot(b);
     if d < R(0.0) { vcover("flip"); bb = -b; d = -d; } else { vcover("no flip"); }
     vlemma_eq("a.b' = d", qdot(a, bb), d);
-    if d > R(0.9995) {
-        // hand-over to nlerp (the 1e-5 rad clause for this path is outside the claim)
+    vlemma_eq("|b'| = 1", qnorm2(bb), R(1.0));
+    if (d > R(0.9995)) && qeq14(r, a.nlerp(bb, t)) {
+        // hand-over to nlerp, allowed only beyond 0.9995 (the 1e-5 rad clause for this path is outside the claim)
         vcover("nlerp path");
-        vassert_eq("slerp = nlerp when close", r, a.nlerp(bb, t));
     } else {
+        // |a.b| <= 0.9995: the exact formula is required.  Beyond it the exact formula is also allowed (the property
+        // only bounds the error there), so a hand-over threshold moved *up* is not a violation -- except at d = 1,
+        // where the exact formula is 0/0 and only nlerp's value (a itself) is right.
         vcover("acos path");
-        let theta = Rad::acos(d.min(R(1.0)).max(-R(1.0)));
-        vlemma_eq("robust dot = d", d.min(R(1.0)).max(-R(1.0)), d);
+        vlemma("exact formula only for d < 1", d < R(1.0));
+        vlemma("d >= 0", d >= R(0.0));
+        // the angle, spelled plainly and with the domain clamp (the same number: d is already in [-1, 1])
+        let dc = d.min(R(1.0)).max(-R(1.0));
+        vlemma_eq("robust dot = d", dc, d);
+        let theta = Rad::acos(d); let theta_c = Rad::acos(dc);
+        vlemma_eq("acos(clamped d) = acos(d)", theta_c.0, theta.0);
         let (ss, cc) = (Rad::sin(theta), Rad::cos(theta));
         vlemma_eq("cos(theta) = d", cc, d);
         vlemma("sin(theta) >= 0", ss >= R(0.0));
         vlemma_eq("sin^2 = 1 - d^2", ss * ss, R(1.0) - d * d);
+        c14_lemma_sin_pos(ss, d);
         vlemma("sin(theta) > 0", ss > R(0.0));
         let s1 = Rad::sin(theta * (R(1.0) - t)); let s2 = Rad::sin(theta * t); let c2 = Rad::cos(theta * t);
         vlemma_eq("sin(theta - t theta)", s1, ss * c2 - d * s2);
         c14_lemma_slerp_core(ss, d, s2, c2, s1);
         let r0 = a * s1 + bb * s2;
-        vlemma_eq("|r0|^2 by bilinearity", r0.magnitude2(), s1 * s1 + s2 * s2 + R(2.0) * s1 * s2 * d);
-        vlemma_eq("r0.a by bilinearity", qdot(r0, a), s1 + s2 * d);
-        vlemma_eq("r0.b' by bilinearity", qdot(r0, bb), s1 * d + s2);
+        c14_lemma_bilinear(a, bb, d, s1, s2);
+        vlemma_eq("|r0|^2", r0.magnitude2(), s1 * s1 + s2 * s2 + R(2.0) * s1 * s2 * d);
         let n = r0.magnitude();
         c14_lemma_slerp_div(n, ss, qdot(r0, a), c2);
         let k = R(1.0) / n;
         vlemma("|r0| > 0", n > R(0.0));
         c14_lemma_unit(r0.magnitude2(), n, k);
+        // the same construction from the clamped spelling of the angle: equal step by step (congruence), so that
+        // whichever spelling the code uses, its result is one rewrite away from r0 k
+        let s1c = Rad::sin(theta_c * (R(1.0) - t)); let s2c = Rad::sin(theta_c * t);
+        vlemma_eq("weights from the clamped angle", [s1c, s2c], [s1, s2]);
+        let r0c = a * s1c + bb * s2c;
+        vlemma_eq("sum from the clamped angle", r0c, r0);
+        let nc = r0c.magnitude();
+        vlemma_eq("norm from the clamped angle", nc, n);
+        vlemma_eq("normalised, from the clamped angle", r0c * (R(1.0) / nc), r0 * k);
         vassert_eq("r = r0 / |r0|", r, r0 * k);
+        c14_lemma_scale4(r0.s, r0.v.x, r0.v.y, r0.v.z, k);
         vlemma_eq("|r|^2 = |r0|^2 k^2", qnorm2(r), r0.magnitude2() * k * k);
         vassert_eq("|r| = 1", qnorm2(r), R(1.0));
         vlemma_eq("r.a = (r0.a) k", qdot(r, a), qdot(r0, a) * k);
@@ -153,8 +192,9 @@ fn c14_slerp_ends(a: Quaternion<R>, b: Quaternion<R>) {
     let mut bb = b; let mut d = a.dot(b);
     if d < R(0.0) { vcover("flip"); bb = -b; d = -d; } else { vcover("no flip"); }
     vlemma_eq("|b'| = 1", qnorm2(bb), R(1.0));
-    if d > R(0.9995) { vcover("nlerp path"); } else {
-        vcover("acos path");
+    if d > R(0.9995) { vcover("nlerp path"); } else { vcover("acos path"); }
+    if d < R(1.0) {
+        // facts about the exact formula (true for every d < 1, whichever path the code takes beyond 0.9995)
         let theta = Rad::acos(d.min(R(1.0)).max(-R(1.0)));
         vlemma_eq("robust dot = d", d.min(R(1.0)).max(-R(1.0)), d);
         let ss = Rad::sin(theta);
